@@ -412,6 +412,64 @@ def check_index_truthiness(R, repo):
   R.ok(key_of(mod.rel, 'index-valued expressions examined'), mod, '%d index-valued expressions, none tested for truth' % n)
 
 
+def _fresh_mapping(f, e, depth=0):
+  """'fresh' / 'alias' / None for the expression installed as a Variable's metadata dict."""
+  if depth > 4 or e is None:
+    return None
+  if isinstance(e, (ast.Dict, ast.DictComp)):
+    return 'fresh'
+  if isinstance(e, ast.BinOp) and isinstance(e.op, ast.BitOr):
+    return 'fresh'  # dict | dict builds a new dict
+  if isinstance(e, ast.Call):
+    tail, name = astu.call_tail(e) or '', astu.call_name(e) or ''
+    if name in ('dict', 'copy.copy', 'copy.deepcopy') or (tail in ('copy', 'deepcopy') and isinstance(e.func, ast.Attribute)):
+      return 'fresh'
+    if tail == 'get_metadata' and not e.args:
+      return 'alias'  # both classes return their own dict
+    return None
+  if isinstance(e, ast.Attribute) and e.attr == '_var_metadata':
+    return 'alias'
+  if isinstance(e, ast.Name):
+    a = f.node.args
+    if a.kwarg is not None and a.kwarg.arg == e.id and not [d for d in flow.defs(f, e.id) if isinstance(d[0], ast.AST)]:
+      return 'fresh'  # **metadata collects the keywords into a new dict
+    if e.id in astu.params(f.node) and not [d for d in flow.defs(f, e.id) if isinstance(d[0], ast.AST)]:
+      return 'fresh'  # a dict handed in as such (Variable.from_metadata adopts the mapping its caller built for it)
+    ds = [d[0] for d in flow.defs(f, e.id) if isinstance(d[0], ast.AST)]
+    if len(ds) == 1:
+      return _fresh_mapping(f, ds[0], depth + 1)
+    if ds and all(_fresh_mapping(f, d, depth + 1) == 'fresh' for d in ds):
+      return 'fresh'
+  return None
+
+
+@rule('C03.R10', 'K7', 6, 'a Variable / VariableState never shares its metadata dict with the object it was built or updated from')
+def r10(R, repo):
+  mod = repo.mod('flax/nnx/variablelib.py')
+  n = 0
+  for q, f in sorted(mod.funcs.items()):
+    if q.endswith('__setstate__'):
+      continue  # unpickling: the state dict was just created by the unpickler
+    for x in astu.func_calls(f):
+      if astu.call_name(x) == 'object.__setattr__' and len(x.args) == 3 and astu.const_str(x.args[1]) == '_var_metadata':
+        n += 1
+        key = key_of(f, 'metadata installed on %s is a fresh dict' % astu.src(x.args[0]))
+        k = _fresh_mapping(f, x.args[2])
+        if k == 'fresh':
+          R.ok(key, (f, x))
+        elif k == 'alias':
+          R.fail(key, (f, x), '`%s` installs another object\'s metadata dict itself: the two objects (e.g. a graph Variable and the State it was updated from, or two graphs updated from one State) then share one mutable dict, and editing the metadata of one silently edits the other' % astu.short(x))
+        else:
+          R.unsure(key, (f, x), 'cannot tell whether `%s` is a fresh dict' % astu.short(x.args[2]))
+  R.require(n >= 6, 'expected >= 6 sites installing _var_metadata, found %d' % n)
+
+
+@rule('C03.R11', 'K4', 1, 'type filters select a Variable type together with its subclasses (shared with C14.R6)')
+def r11(R, repo):
+  from . import c14 as _c14
+  _c14.check_oftype(R, repo)
+
+
 @rule('C03.R9', 'K12', 1, 'indices (0 is a valid index) are never tested for truth')
 def r9(R, repo):
   check_index_truthiness(R, repo)
